@@ -84,6 +84,11 @@ def judge(rec, name, src, cfg, feats=()):
         rec.count(pool + "-held")
         for f in feats:
             rec.note("features held", f)
+        if not trig and len(feats) <= 40:
+            fs = sorted(feats)
+            for i in range(len(fs)):
+                for j in range(i + 1, len(fs)):
+                    rec.note("feature pairs that co-occurred in a held clean program", fs[i] + "+" + fs[j])
         if trig:
             for k in trig:
                 rec.count("tainted-but-held:" + k["id"])
